@@ -1,6 +1,6 @@
 (* Props/C04.v -- property theorems for C04 only.  Each is closed by [exact] of a lemma proved
    elsewhere and followed by Print Assumptions. *)
-From LV Require Import Base LayerEnv LayerEnvFacts.
+From LV Require Import Base ImpPrims LayerEnv LayerEnvFacts.
 From LVGen Require Import GenLayerEnv.
 From Coq Require Import Permutation.
 
@@ -10,6 +10,26 @@ Theorem c04_tables :
   beh_index_distinct = true /\ beh_cmp_shape_ok = true /\ apply_fold_shape_ok = true.
 Proof. repeat split; reflexivity. Qed.
 Print Assumptions c04_tables.
+
+(* The loop body of LayerEnvDelta::apply as the translator reads it from the source, statement by
+   statement (translator/src/imp.rs -> GenLayerEnv.gen_delta_step), IS the model's delta_step: the
+   theorems below are therefore about the code's own arms, re-derived from /repo on every run.  (The
+   proof is kept here, not in a library file, because it is about a generated definition.) *)
+Theorem c04_step_regenerated :
+  apply_loop_frame_ok = true /\
+  forall (d : delta) (b : beh) (e : env) (n v : bytes), gen_delta_step d b e n v = delta_step d b e (n, v).
+Proof.
+  split; [reflexivity|]. intros d b e n v. unfold gen_delta_step, delta_step, opt_default, env_contains.
+  destruct b.
+  - (* Append *) destruct (bget n e) as [[|c p]|]; cbn [is_empty negb app]; try reflexivity.
+    now rewrite <- app_assoc.
+  - (* Default *) destruct (bget n e); reflexivity.
+  - reflexivity.
+  - reflexivity.
+  - (* Prepend *) destruct (bget n e) as [[|c p]|]; cbn [is_empty negb app]; try (now rewrite ?app_nil_r).
+    now rewrite <- app_assoc.
+Qed.
+Print Assumptions c04_step_regenerated.
 
 Theorem c04_per_variable :
   forall (e : layer_env) (s : scope) (env0 : env) (n : bytes), le_wf e ->
